@@ -58,6 +58,21 @@ class Case:
                 used |= {t.name for t in sqleval.parse(sql).find_all(sqleval.exp.Table)}
             except Exception:  # not parseable: fall back to a textual scan
                 used |= {s_["name"] for s_ in self.structs if '"%s"' % s_["name"] in sql}
+        # every dataset the script names is an input too (the SQL may - wrongly - ignore an operand)
+        names = {s_["name"] for s_ in self.structs}
+        stack = [self.ast]
+        seen = set()
+        while stack:
+            x = stack.pop()
+            if id(x) in seen or x is None:
+                continue
+            seen.add(id(x))
+            if isinstance(x, (list, tuple)):
+                stack.extend(x)
+            elif hasattr(x, "__dataclass_fields__"):
+                if type(x).__name__ in ("VarID", "Identifier") and x.value in names:
+                    used.add(x.value)
+                stack.extend(getattr(x, f) for f in x.__dataclass_fields__)
         self.inputs = {}
         for s in self.structs:
             if s["name"] not in used and not self.opts.get("all_inputs"):
